@@ -58,6 +58,9 @@ mod write_mode;
 pub mod code_examples;
 pub mod filter;
 mod util;
+#[cfg(feature = "verif_hooks")]
+#[doc(hidden)]
+pub mod verif_hooks;
 pub mod writers;
 
 pub mod error_info;
